@@ -225,11 +225,35 @@ class Gen:
                 b3 = self.block_body(depth + 1, r.randint(0, 2))
                 return [ind + 'if (%s) {' % self.cond()] + body + [ind + '} else if (%s) {' % self.cond()] + b2 + [ind + '} else {'] + b3 + [ind + '}']
             if kind == 'local':
-                self.nlocal += 1
-                v = 'loc%d' % self.nlocal
-                if r.random() < 0.5:
-                    return [ind + '{', ind + '    int %s = %s;' % (v, self.int_expr()), ind + '    %s = %s + %s;' % (r.choice(p.regs_i), v, self.int_lit())] + body + [ind + '}']
-                return [ind + '{', ind + '    float %s = %s;' % (v, self.float_expr()), ind + '    %s = %s * %s;' % (r.choice(p.regs_f), v, self.float_lit())] + body + [ind + '}']
+                # a block declaring 1-3 locals (often of one type), using them, and ending their
+                # scopes together; later statements allocate again
+                out = [ind + '{']
+                n = r.choice([1, 2, 2, 3])
+                ty = r.choice(['int', 'float', 'mixed'])
+                names = []
+                for j in range(n):
+                    self.nlocal += 1
+                    v = 'loc%d' % self.nlocal
+                    t = ty if ty != 'mixed' else r.choice(['int', 'float'])
+                    names.append((v, t))
+                    if t == 'int':
+                        out.append(ind + '    int %s = %s;' % (v, self.int_expr()))
+                    else:
+                        out.append(ind + '    float %s = %s;' % (v, self.float_expr()))
+                for v, t in names:
+                    if t == 'int':
+                        out.append(ind + '    %s = %s + %s;' % (r.choice(p.regs_i), v, self.int_lit()))
+                    else:
+                        out.append(ind + '    %s = %s * %s;' % (r.choice(p.regs_f), v, self.float_lit()))
+                out += body + [ind + '}']
+                if r.random() < 0.6:
+                    self.nlocal += 1
+                    v = 'loc%d' % self.nlocal
+                    if ty == 'float':
+                        out += [ind + '{', ind + '    float %s = %s;' % (v, self.float_lit()), ind + '    %s = %s;' % (r.choice(p.regs_f), v), ind + '}']
+                    else:
+                        out += [ind + '{', ind + '    int %s = %s;' % (v, self.int_lit()), ind + '    %s = %s;' % (r.choice(p.regs_i), v), ind + '}']
+                return out
         return [ind + self.ins()]
 
     def diff_stmt(self, ind, depth):
